@@ -285,12 +285,85 @@ def stepCheckIn (op : List String) (out : String) : String :=
       else s!"DIS ok/err Invalid/err InvalidData"
   | _ => "BAD op"
 
+/-! ### formats without a Lean model: implementation-side oracle only -/
+
+def strHex (s : String) : String := hex (s.toUTF8.toList.map (·.toNat))
+
+def ipv4Str (ip : Nat) : String :=
+  s!"{ip / 16777216 % 256}.{ip / 65536 % 256}.{ip / 256 % 256}.{ip % 256}"
+
+def stepAdv (op : List String) (out : String) : String :=
+  if isPanic out then "ORA decoder panicked" else
+  match op with
+  | ["rt", vid, pid, disc] =>
+    match nats [vid, pid, disc] with
+    | some [v, p, d] =>
+      if d < 4096 then
+        let want := s!"ok {v} {p} {d} 0"
+        match out.splitOn " | " with
+        | [a, b] =>
+          if (splitFirst a).2 = want ∧ (splitFirst b).2 = want then "ok"
+          else s!"ORA advertisement round trip: want [{want}] got [{out}]"
+        | _ => s!"ORA advertisement round trip failed: {out}"
+      else "ok"
+    | _ => "BAD args"
+  | ["rrt", id] =>
+    let want := s!"ok {id} 0"
+    match out.splitOn " | " with
+    | [a, b] =>
+      if (splitFirst a).2 = want ∧ (splitFirst b).2 = want then "ok"
+      else s!"ORA recovery advertisement round trip: want [{want}] got [{out}]"
+    | _ => s!"ORA recovery advertisement round trip failed: {out}"
+  | ["dec", _] => "ok"
+  | _ => "BAD op"
+
+def stepMdns (op : List String) (out : String) : String :=
+  if isPanic out then "ORA decoder panicked or did not terminate" else
+  match op with
+  | ["rt", name, port, _host, ip, _ip6, txt, _subs] =>
+    match unhex name, port.toNat?, ip.toNat? with
+    | some nb, some p, some ipn =>
+      let txtLen := txt.length / 2
+      if out.startsWith "err " then
+        if txtLen > 900 then "ok" else s!"ORA legal service record could not be encoded: {out}"
+      else
+        let wantName := hex (nb ++ "._matterc._udp.local".toUTF8.toList.map (·.toNat))
+        let wantTxt := if txt = "-" then "[]" else s!"[{txt}]"
+        match words out with
+        | [_, "ok", n, pt, t, addrs, scope] =>
+          if n ≠ wantName then s!"ORA instance name: want {wantName} got {n}"
+          else if pt ≠ toString p then s!"ORA port: want {p} got {pt}"
+          else if t ≠ wantTxt then s!"ORA TXT records: want {wantTxt} got {t}"
+          else if scope ≠ "3" then s!"ORA scope id {scope}"
+          else if ipn ≠ 0 ∧ !((addrs.splitOn (ipv4Str ipn)).length > 1) then s!"ORA IPv4 address {ipv4Str ipn} missing in {addrs}"
+          else "ok"
+        | _ => s!"ORA service record round trip failed: {out}"
+    | _, _, _ => "BAD args"
+  | ["dec", _] => "ok"
+  | _ => "BAD op"
+
+def stepCert (op : List String) (out : String) : String :=
+  if isPanic out then "ORA converter panicked or did not terminate" else
+  match op with
+  | ["vec", _] =>
+    match words out with
+    | ["ok", _, k1, "der-ok", k2] =>
+      if (k1.splitOn "=").getLast? = (k2.splitOn "=").getLast? then "ok"
+      else s!"ORA public key of the DER differs from the TLV one: {k1} {k2}"
+    | _ => s!"ORA certificate vector not converted as expected: {out.take 80}"
+  | ["dec", _] => "ok"
+  | ["small", _, _] => "ok"
+  | _ => "BAD op"
+
 def step (kind : String) (op : List String) (out : String) : Option String :=
   match kind with
   | "qr" => some (stepQr op out)
   | "btp" => some (stepBtp op out)
   | "bdx" => some (stepBdx op out)
   | "checkin" => some (stepCheckIn op out)
+  | "adv" => some (stepAdv op out)
+  | "mdns" => some (stepMdns op out)
+  | "cert" => some (stepCert op out)
   | _ => none
 
 end Driver.C17More
